@@ -116,7 +116,7 @@ def check_entry(ctx, N, fn, kind, sign, path):
                 ok += 1
             else:
                 ctx.finding(f'C05:RESULT|{fn}', 'F4/F6', I.bodies[fn]['span'], f'{fn}: the result is not the day number returned by date_to_days with time of day and offset copied')
-    ctx.rule('C05 target month/day and result', n, ok, floor=3, sample={'entry': fn})
+    ctx.rule('C05 target month/day and result', n, ok, floor=1, sample={'entry': fn})
     rec['calls'].clear()
 
 
